@@ -36,9 +36,9 @@ CONSTANTS
   Emit,         \* print REPLAY lines
   Excused       \* known deviations of the tree: set of <<scheme, adversary-plan name>>
 
-VARIABLES pc, pp, keys, polys, rng, ops, prs, spP, spAfter, stmts, adv, advname, want, spV, outs
+VARIABLES pc, pp, keys, polys, rng, ops, prs, spP, spAfter, stmts, adv, advname, want, spV, outs, ser
 
-vars == <<pc, pp, keys, polys, rng, ops, prs, spP, spAfter, stmts, adv, advname, want, spV, outs>>
+vars == <<pc, pp, keys, polys, rng, ops, prs, spP, spAfter, stmts, adv, advname, want, spV, outs, ser>>
 
 \* --------------------------------------------------------------------------
 \* arithmetic helpers
@@ -56,7 +56,7 @@ Fam == Family(S)
 
 \* --------------------------------------------------------------------------
 \* configuration spaces
-HonestMode == Mode \in {"C01", "C02", "C03", "C05", "C06", "C11"}
+HonestMode == Mode \in {"C01", "C02", "C03", "C05", "C06", "C11", "C12"}
 
 KeySpace(maxdeg) ==
   LET base == {[sup |-> su, hid |-> h, nobounds |-> FALSE, bounds |-> b] :
@@ -366,6 +366,13 @@ PlansC11 ==
                     x[2] > x[1] /\ ops[x[2]].kind = ops[x[1]].kind /\ ops[x[2]].kind # "lc"
                     /\ ops[x[2]] # ops[x[1]] /\ NonConstLabels # {}}}
 
+\* round trips: <<artefact, mode>>, mode = 2 * compress + validate
+Artefacts == <<"pp", "ck", "vk", "comm", "state", "proof">>
+SerChoices ==
+  IF Mode # "C12" THEN {<<>>}
+  ELSE {<< <<Artefacts[a], m>> >> : a \in DOMAIN Artefacts, m \in 0..3}
+       \cup {[a \in DOMAIN Artefacts |-> <<Artefacts[a], m>>] : m \in 0..3}
+
 AdvPlans ==
   LET st == stmts[1] IN
   CASE Mode = "C01" -> {Plan("honest", "accept", <<>>)}
@@ -375,6 +382,7 @@ AdvPlans ==
     [] Mode = "C05" -> PlansC05(st)
     [] Mode = "C06" -> PlansC06(st)
     [] Mode = "C11" -> PlansC11
+    [] Mode = "C12" -> {Plan("honest", "accept", <<>>), Plan("value", "not_accept", <<FalseValue(st)>>)}
     [] OTHER -> {Plan("honest", "accept", <<>>)}
 
 \* --------------------------------------------------------------------------
@@ -570,7 +578,7 @@ Init ==
   /\ pc = "setup" /\ pp = [maxdeg |-> 0, nv |-> NONE, cls |-> ""]
   /\ keys = [sup |-> 0, hid |-> 0, nobounds |-> TRUE, bounds |-> <<>>, cls |-> "", maxdeg |-> 0]
   /\ polys = <<>> /\ rng = TRUE /\ ops = <<>> /\ prs = <<>> /\ spP = <<>> /\ spAfter = <<>>
-  /\ stmts = <<>> /\ adv = <<>> /\ advname = "" /\ want = "" /\ spV = <<>> /\ outs = <<>>
+  /\ stmts = <<>> /\ adv = <<>> /\ advname = "" /\ want = "" /\ spV = <<>> /\ outs = <<>> /\ ser = <<>>
 
 Setup ==
   /\ pc = "setup"
@@ -578,7 +586,7 @@ Setup ==
        LET c == SetupClass(S, md, nv) IN
        /\ pp' = [maxdeg |-> md, nv |-> nv, cls |-> c]
        /\ pc' = IF c = "ok" THEN "trim" ELSE "done"
-  /\ UNCHANGED <<keys, polys, rng, ops, prs, spP, spAfter, stmts, adv, advname, want, spV, outs>>
+  /\ UNCHANGED <<keys, polys, rng, ops, prs, spP, spAfter, stmts, adv, advname, want, spV, outs, ser>>
 
 Trim ==
   /\ pc = "trim"
@@ -588,7 +596,7 @@ Trim ==
        /\ keys' = [sup |-> k.sup, hid |-> k.hid, nobounds |-> k.nobounds, bounds |-> k.bounds, cls |-> c,
                    maxdeg |-> EffMax(S, pp.maxdeg)]
        /\ pc' = IF c = "ok" THEN "commit" ELSE "done"
-  /\ UNCHANGED <<pp, polys, rng, ops, prs, spP, spAfter, stmts, adv, advname, want, spV, outs>>
+  /\ UNCHANGED <<pp, polys, rng, ops, prs, spP, spAfter, stmts, adv, advname, want, spV, outs, ser>>
 
 RngChoices == IF Mode = "C17" THEN {TRUE, FALSE} ELSE {TRUE}
 
@@ -599,7 +607,7 @@ Commit ==
        /\ pc' = IF Expect(CommitClass(S, pp.maxdeg, pp.nv, keys, ps, r)) = "ok"
                    /\ Predict(CommitClass(S, pp.maxdeg, pp.nv, keys, ps, r)) = "ok"
                 THEN "open" ELSE "done"
-  /\ UNCHANGED <<pp, keys, ops, prs, spP, spAfter, stmts, adv, advname, want, spV, outs>>
+  /\ UNCHANGED <<pp, keys, ops, prs, spP, spAfter, stmts, adv, advname, want, spV, outs, ser>>
 
 Open ==
   /\ pc = "open"
@@ -615,7 +623,7 @@ Open ==
                /\ stmts' = Append(stmts, HonestStmt(o))
        /\ spAfter' = Append(spAfter, IF c = "ok" THEN r.sp ELSE spP)
        /\ pc' = IF c # "ok" THEN "done" ELSE IF Len(ops) + 1 < MaxOps THEN "open" ELSE "adv"
-  /\ UNCHANGED <<pp, keys, polys, rng, adv, advname, want, spV, outs>>
+  /\ UNCHANGED <<pp, keys, polys, rng, adv, advname, want, spV, outs, ser>>
 
 Adv ==
   /\ pc = "adv"
@@ -623,6 +631,9 @@ Adv ==
        LET r == ApplyMoves(stmts, prs, plan.moves, 1) IN
        /\ adv' = plan.moves /\ advname' = plan.name /\ want' = plan.want
        /\ stmts' = r.stmts /\ prs' = r.prs
+  \* C12: canonical-serialization round trips of artefacts may be interleaved anywhere; on the
+  \* abstract state they are stuttering steps (nothing below reads `ser`), the harness performs them
+  /\ \E sr \in SerChoices : ser' = sr
   /\ pc' = "check"
   /\ UNCHANGED <<pp, keys, polys, rng, ops, spP, spAfter, spV, outs>>
 
@@ -634,7 +645,7 @@ Check ==
                               true |-> ClaimsTrue(stmts[k])])
      /\ spV' = r.sp
      /\ pc' = IF k = Len(ops) THEN "done" ELSE "check"
-  /\ UNCHANGED <<pp, keys, polys, rng, ops, prs, spP, spAfter, stmts, adv, advname, want>>
+  /\ UNCHANGED <<pp, keys, polys, rng, ops, prs, spP, spAfter, stmts, adv, advname, want, ser>>
 
 Next == Setup \/ Trim \/ Commit \/ Open \/ Adv \/ Check
 
@@ -679,14 +690,17 @@ Behaviour ==
    supported |-> keys.sup, hiding |-> keys.hid, bounds |-> keys.bounds, nobounds |-> keys.nobounds,
    polys |-> polys, rng |-> rng,
    ops |-> [k \in DOMAIN ops |-> OpJson(ops[k])],
-   adv |-> adv,
+   adv |-> adv, ser |-> ser,
    model |-> [k \in DOMAIN outs |-> [res |-> outs[k].res, singles |-> outs[k].singles, lock |-> outs[k].lock]],
    expect |-> [setup |-> ExpClass(pp.cls),
                trim |-> IF keys.cls = "" THEN "any" ELSE ExpClass(keys.cls),
                commit |-> IF polys = <<>> THEN "any" ELSE ExpClass(CommitClass(S, pp.maxdeg, pp.nv, keys, polys, rng)),
                ops |-> [k \in DOMAIN ops |->
                           [open |-> ExpClass(ops[k].cls),
-                           check |-> IF want = "accept" \/ adv = <<>> THEN "accept"
+                           check |-> IF Mode = "C12"    \* same decision as without the round trips: the model's
+                                     THEN (IF k \notin DOMAIN outs THEN "any"
+                                           ELSE IF outs[k].res = "accept" THEN "accept" ELSE "not_accept")
+                                     ELSE IF want = "accept" \/ adv = <<>> THEN "accept"
                                      ELSE IF k \in TouchedOps /\ Cardinality(TouchedOps) = 1 THEN "not_accept"
                                      ELSE "any",
                            lockstep |-> IF adv = <<>> THEN "yes" ELSE "any"]]]]
